@@ -61,12 +61,12 @@ func lexString(ls []lex) string {
 var exprKeywords = []string{"AND", "OR", "NOT", "XOR", "LIKE", "IS", "IN", "NULL", "TRUE", "FALSE"}
 var exprMultiSymbols = []string{"<=", ">=", "<>", "!=", ">>", "<<"}
 var genericMultiSymbols = []string{"<>", "<=", ">="}
-var exprSingleSymbols = []string{"(", ")", "[", "]", "+", "-", "*", "/", "%", "^", "=", "<", ">", ",", "!", "@", "$", "&", "|", "~", ";", ":", "?", "{", "}", "\\", "`", "#", ".", "ш", "€", "Ω", "中", "￾", "\u00a0", "\u0085", "\u007f", "\u2028", "\u2029", "\u3000", "\u00bf", "\u0663", "\uff15"}
+var exprSingleSymbols = []string{"(", ")", "[", "]", "+", "-", "*", "/", "%", "^", "=", "<", ">", ",", "!", "@", "$", "&", "|", "~", ";", ":", "?", "{", "}", "\\", "`", "#", ".", "ш", "€", "Ω", "中", "￾", "\u00a0", "\u0085", "\u007f", "\u2028", "\u2029", "\u3000", "\u00bf", "\u0663", "\uff15", "\u0145", "\u0165", "\u0445", "\u0425", "\u2145", "\uff25", "\uff45"}
 var genericSingleSymbols = []string{"(", ")", "[", "]", "+", "-", "*", "/", "%", "^", "=", "<", ">", ",", "!", "@", "$", "&", "|", "~", ";", ":", "?", "{", "}", "\\", "`", ".", "_", "¡", "§", "¿", "\u00a0", "\u0085", "\u007f"}
 
-var latinStart = []string{"a", "b", "x", "Z", "Q", "é", "Ü", "ÿ", "À"}
+var latinStart = []string{"a", "b", "x", "Z", "Q", "é", "Ü", "ÿ", "À", "Å", "å", "e", "E"}
 var wordCont = []string{"a", "k", "Z", "0", "7", "_", "é", "ÿ", "ш", "€", "中", "￾", "Ā"}
-var nonLatinStart = []string{"ш", "Ж", "€", "Ω", "中", "Ā", "￾", "\u2028", "\u3000", "\u212a", "\u0663", "\u096b", "\uff15"}
+var nonLatinStart = []string{"ш", "Ж", "€", "Ω", "中", "Ā", "￾", "\u2028", "\u3000", "\u212a", "\u0663", "\u096b", "\uff15", "\u0145", "\u0165", "\u0445", "\uff25"}
 
 type lexGen struct {
 	kind string // "expression" | "generic"
@@ -83,10 +83,45 @@ func isKeyword(s string) bool {
 	return false
 }
 
+// lookAlike spells an identifier that is one edit away from a keyword (a letter replaced by a digit, an underscore or
+// another letter; a character inserted or appended): tru3, n0t, nul1, x0r, i5, andd, not_ ...
+func (g *lexGen) lookAlike() string {
+	r := g.r
+	k := []rune(mon.Pick(r, exprKeywords))
+	for i := range k {
+		if r.Bool() {
+			k[i] |= 0x20
+		}
+	}
+	repl := []rune("0123456789_0123456789ekZé")
+	switch r.Intn(4) {
+	case 0, 1:
+		if len(k) > 1 {
+			k[1+r.Intn(len(k)-1)] = mon.Pick(r, repl)
+		} else {
+			k = append(k, mon.Pick(r, repl))
+		}
+	case 2:
+		k = append(k, mon.Pick(r, repl))
+	default:
+		i := 1 + r.Intn(len(k))
+		k = append(k[:i], append([]rune{mon.Pick(r, repl)}, k[i:]...)...)
+	}
+	if r.Chance(1, 3) && len(k) > 2 {
+		k[1+r.Intn(len(k)-1)] = mon.Pick(r, repl)
+	}
+	return string(k)
+}
+
 func (g *lexGen) ident() lex {
 	r := g.r
 	for {
 		var b strings.Builder
+		if r.Chance(1, 4) {
+			if s := g.lookAlike(); !isKeyword(s) {
+				return lex{tokenizers.Word, s}
+			}
+		}
 		if g.kind == "expression" {
 			if r.Chance(1, 8) {
 				b.WriteString("_")
@@ -262,8 +297,8 @@ func (g *lexGen) needSep(a, b lex) bool {
 		if a.Type == tokenizers.Word && strings.HasPrefix(a.Text, "\"") {
 			return fb == '"'
 		}
-		if (a.Type == tokenizers.Integer || a.Type == tokenizers.Float) && fb >= 0x100 {
-			return false // a number ends at the first character that is not an ASCII digit, dot or exponent
+		if (a.Type == tokenizers.Integer || a.Type == tokenizers.Float) && fb >= 0x80 {
+			return false // a number ends at the first character that is not an ASCII digit, dot or exponent marker (e, E)
 		}
 		if isWordish(fb) || fb == '.' {
 			return true
